@@ -13,6 +13,7 @@ import (
 	"sort"
 	"strings"
 	"sync"
+	"syscall"
 	"time"
 
 	"github.com/johannesboyne/gofakes3"
@@ -121,7 +122,7 @@ func (db *SingleBucketBackend) getBucketWithFilePrefixLocked(bucket string, pref
 	if err != nil && prefixPath != "" {
 		// The prefix names a directory that does not exist (or a file): no key
 		// can match it, which is an empty listing and not an error.
-		if stat, serr := db.fs.Stat(filepath.FromSlash(prefixPath)); os.IsNotExist(serr) || (serr == nil && !stat.IsDir()) {
+		if stat, serr := db.fs.Stat(filepath.FromSlash(prefixPath)); os.IsNotExist(serr) || errors.Is(serr, syscall.ENOTDIR) || (serr == nil && !stat.IsDir()) {
 			return gofakes3.NewObjectList(), nil
 		}
 	}
